@@ -379,6 +379,8 @@ func checkC15(tier, replay string) int {
 				cases = append(cases, c15Case{Label: name + "/defect/" + label, File: content, FileKind: "content"})
 			}
 			def("unknown-action", strings.Replace(text, "action: errno", "action: deny", 1))
+			def("env-reference-as-action", strings.Replace(text, "action: errno", "action: ${C15_ACT}", 1))
+			def("env-reference-as-default", strings.Replace(text, "default_action: allow", "default_action: ${C15_ACT}", 1))
 			def("unknown-default", strings.Replace(text, "default_action: allow", "default_action: permit", 1))
 			def("unknown-syscall", strings.Replace(text, "- getppid", "- getppid_", 1))
 			// an unknown name at every position where a syscall name stands (plain names and names_with_args entries)
@@ -390,6 +392,14 @@ func checkC15(tier, replay string) int {
 					idx := strings.Index(text, ln)
 					bad := strings.TrimRight(ln, "\n") + "_x\n"
 					def(fmt.Sprintf("unknown-syscall-at-%d", occ), text[:idx]+bad+text[idx+len(ln):])
+					// a name that looks like a reference to the environment (the variable is set, to a real syscall name, in
+					// every run): the file says what it says, a policy is not a template
+					if occ < 3 {
+						for k, ref := range []string{"${C15_NAME}", "${C15_NAME:no_such_call}", "'${C15_NAME}'", "$C15_NAME", "%{C15_NAME}"} {
+							name := strings.TrimSpace(strings.TrimPrefix(strings.TrimPrefix(t, "- name: "), "- "))
+							def(fmt.Sprintf("env-reference-as-name-%d-at-%d", k, occ), text[:idx]+strings.Replace(ln, name, ref, 1)+text[idx+len(ln):])
+						}
+					}
 					// a name that IS a system call - of another architecture's table, not of this one
 					for k := 0; k < 2; k++ {
 						foreign := c15ForeignNames[(2*occ+k)%len(c15ForeignNames)]
@@ -565,7 +575,7 @@ func checkC15(tier, replay string) int {
 		if c.Unpriv {
 			argv = append([]string{"setpriv", "--reuid", "65534", "--regid", "65534", "--clear-groups"}, argv...)
 		}
-		runDir, runEnv := dir, []string{"PATH=/usr/bin:/bin"}
+		runDir, runEnv := dir, []string{"PATH=/usr/bin:/bin", "C15_NAME=getuid", "C15_ACT=allow", "C15_OP=Equal"}
 		if c.FileKind == "missing-relative" || c.FileKind == "missing-default" {
 			runDir = filepath.Join(dir, "cwd")
 			runEnv = append(runEnv, "HOME="+filepath.Join(dir, "home"))
@@ -651,7 +661,7 @@ func checkC15(tier, replay string) int {
 	ctx.Cov["runs_in_which_the_target_started"] = ranTarget
 	ctx.Cov["runs_that_must_be_refused"] = refused
 	ctx.Cov["probe_events_observed_by_the_target"] = probes
-	ctx.Cov["rule"] = "the built cmd/sandbox binary is run with a probe target (a separate program that first appends a marker line, then issues probe syscalls for every partition cell of the policy) on: 11 base policy files (one listing a syscall twice with entries for other syscalls in between and a three-condition list, one spelling all eight operations and the actions in non-canonical letter case, one whose first group ends with a conditional entry for a syscall the second group names unconditionally) (incl. two under which execve is not allowed: no target can be started) whole (root / uid 65534 / with -no-new-privs=false / non-existent target / nested inside an outer sandbox whose policy answers errno to seccomp(2), so that the kernel refuses the filter; under a tracer that answers every seccomp(2) call itself - with a positive result, which is how a refused thread-sync is reported, or with ESRCH / ENOMEM / EINVAL / EACCES / EFAULT - so that nothing is installed), every line prefix and every byte prefix inside the first and last rule (thorough: every byte prefix), 13 defect kinds per base plus an unknown name, and two names that only other architectures' tables have, at every position where a syscall name stands, JSON renderings with operands that need all 64 bits (unknown action/default/syscall/operation, wrong key, no syscalls, non-YAML, tab indentation, empty, argument 6 / -1, non-numeric value, duplicate name), a policy compiling to > 4096 instructions, ten nested sandbox commands with a 4.0k-instruction policy (the kernel refuses one of them with ENOMEM), a policy whose first group needs long jumps (70 conditional entries) followed by a second group, files of 4 KiB to 1 MiB in which a comment block pushes the last group to byte offset L-1, L, L+1 for L in {4096, ..., 65536, 131072, 1 MiB}, a missing file (also a relative and the default name that exist next to the command's executable and in HOME, but not in the working directory) and a directory; the same bytes are loaded by the harness through ucfg: if that fails, the policy is invalid or the kernel must refuse, the run must exit non-zero with no marker; otherwise the marker exists and the target's observations equal the reference decisions of the policy the file denotes"
+	ctx.Cov["rule"] = "the built cmd/sandbox binary is run with a probe target (a separate program that first appends a marker line, then issues probe syscalls for every partition cell of the policy) on: 11 base policy files (one listing a syscall twice with entries for other syscalls in between and a three-condition list, one spelling all eight operations and the actions in non-canonical letter case, one whose first group ends with a conditional entry for a syscall the second group names unconditionally) (incl. two under which execve is not allowed: no target can be started) whole (root / uid 65534 / with -no-new-privs=false / non-existent target / nested inside an outer sandbox whose policy answers errno to seccomp(2), so that the kernel refuses the filter; under a tracer that answers every seccomp(2) call itself - with a positive result, which is how a refused thread-sync is reported, or with ESRCH / ENOMEM / EINVAL / EACCES / EFAULT - so that nothing is installed), every line prefix and every byte prefix inside the first and last rule (thorough: every byte prefix), 13 defect kinds per base plus names, actions and defaults written as references to environment variables that are set in every run (${VAR}, ${VAR:default}, $VAR, %{VAR}), an unknown name, and two names that only other architectures' tables have, at every position where a syscall name stands, JSON renderings with operands that need all 64 bits (unknown action/default/syscall/operation, wrong key, no syscalls, non-YAML, tab indentation, empty, argument 6 / -1, non-numeric value, duplicate name), a policy compiling to > 4096 instructions, ten nested sandbox commands with a 4.0k-instruction policy (the kernel refuses one of them with ENOMEM), a policy whose first group needs long jumps (70 conditional entries) followed by a second group, files of 4 KiB to 1 MiB in which a comment block pushes the last group to byte offset L-1, L, L+1 for L in {4096, ..., 65536, 131072, 1 MiB}, a missing file (also a relative and the default name that exist next to the command's executable and in HOME, but not in the working directory) and a directory; the same bytes are loaded by the harness through ucfg: if that fails, the policy is invalid or the kernel must refuse, the run must exit non-zero with no marker; otherwise the marker exists and the target's observations equal the reference decisions of the policy the file denotes"
 	ctx.Assumptions = []string{"a truncated file that still parses is a different valid policy and is judged as such", "probe syscalls ignore arguments", "fault points before exec are realised through inputs (file defects, kernel refusals), not by interrupting the sandbox process"}
 	if replay != "" {
 		return finishReplay(ctx)
